@@ -9,7 +9,7 @@ from hypothesis import strategies as st
 from vlib import gen, ring
 from vlib.build import make_cds, make_record
 from vlib.runner import Violation, code_under_test
-from checks.c03_protoclusters import _build_ruleset, detection_specs
+from checks.c03_protoclusters import _build_ruleset, detection_specs, extender_specs
 
 PROPERTY_ID = "C07"
 LEVEL = "exploration"
@@ -417,6 +417,14 @@ def two_gene_rule_specs(draw) -> dict:
     return {"L": length, "circular": True, "genes": genes, "hits": hits, "rules": rules_spec}
 
 
+@st.composite
+def extender_circular_specs(draw) -> dict:
+    """ C03's extender-chain layouts, on a ring (chains of extender genes, several anchor groups) """
+    spec = draw(extender_specs())
+    spec["circular"] = True
+    return spec
+
+
 SOME_RULES = ["T1PKS", "NRPS", "fungal_CDPS", "terpene", "lanthipeptide-class-i", "NRPS-like", "T3PKS", "betalactone",
               "fungal-RiPP-like", "indole"]
 SOME_CATEGORIES = ["PKS", "NRPS", "RiPP", "terpene", "other"]
@@ -444,6 +452,7 @@ def ruleset_requests(draw) -> dict:
 def run(ctx) -> None:
     ctx.hyp("get_ruleset", ruleset_requests(), max_examples=ctx.pick(120, 3000), shards=ctx.pick(8, 16))
     ctx.hyp("rotation", two_gene_rule_specs(), max_examples=ctx.pick(60, 1500), shards=ctx.pick(8, 16))
+    ctx.hyp("rotation", extender_circular_specs(), max_examples=ctx.pick(60, 1500), shards=ctx.pick(8, 16))
     ctx.hyp("rotation", small_circular_specs(), max_examples=ctx.pick(160, 4000), shards=ctx.pick(8, 16))
     ctx.hyp("rotation", circular_specs(), max_examples=ctx.pick(120, 3000), shards=ctx.pick(8, 16))
     ctx.hyp("rule_order", detection_specs(), max_examples=ctx.pick(500, 12000), shards=ctx.pick(8, 16))
